@@ -295,7 +295,7 @@ def r6(ctx):
     from .c01 import memoised_geometry
     m = ctx.model
     for ci in m.region_classes('pixel'):
-        memo = memoised_geometry(m, ci, ('bounding_box', 'to_mask'))
+        memo = memoised_geometry(m, ci, ('bounding_box', 'to_mask'), rule='C04.R6')
         if memo:
             name, why, f = memo[0]
             ctx.bad(ci.name, f'memoised:{name}',
